@@ -1002,4 +1002,69 @@ theorem dead_not_logged {i : Nat} {s : Sim} (ha : Acc s) (h : Dead i s) : i ∉ 
   simp only [List.count_nil, Nat.add_zero] at hc
   split at hc <;> omega
 
+/-! ### events scheduled up front run in sorted order -/
+
+/-- no callable schedules, cancels or drops anything, and `model.step` is not on the list: the events on the
+    list are all there is -/
+structure Quiet (s : Sim) : Prop where
+  progs : ∀ a, s.prog a = []
+  nosteps : ∀ e ∈ s.pending, e.isStep = false
+
+/-- what executing the live event `e` logs at its own time -/
+def logged (e : Ev) : Option LogEntry := if e.dead then none else some (.user e.id e.tag e.time)
+
+/-- the live events due by `T`, in list order -/
+def due (T : Int) (l : List Ev) : List Ev := (l.filter Ev.live).takeWhile (fun e => decide (e.time ≤ T))
+
+theorem filter_live_of_cancelled {l : List Ev} (h : ∀ x ∈ l, x.cancelled = true) : l.filter Ev.live = [] := by
+  apply List.filter_eq_nil_iff.mpr
+  intro x hx
+  simp [Ev.live, h x hx]
+
+theorem filter_live_pop {l : List Ev} {e : Ev} {rest : List Ev} (hp : popLive l = some (e, rest)) :
+    l.filter Ev.live = e :: rest.filter Ev.live := by
+  obtain ⟨hd, hl⟩ := popLive_decomp hp
+  conv => lhs; rw [hd]
+  rw [List.filter_append, filter_live_of_cancelled skipped_cancelled, List.nil_append, List.filter_cons]
+  simp [Ev.live, hl]
+
+theorem exec_quiet {s : Sim} (e : Ev) (hq : Quiet s) (he : e.isStep = false) :
+    exec s e = if e.dead then { s with gone := s.gone ++ [e.id] }
+               else { s with log := s.log ++ [.user e.id e.tag s.now] } := by
+  unfold exec
+  split
+  · rfl
+  · rw [if_neg (by simp [he]), hq.progs]; rfl
+
+theorem runUntil_quiet_log {f : Nat} {s s' : Sim} {T : Int} (hq : Quiet s)
+    (hr : runUntil f s T = some s') : s'.log = s.log ++ (due T s.pending).filterMap logged := by
+  induction f generalizing s with
+  | zero => simp [runUntil] at hr
+  | succ f ih =>
+    simp only [runUntil] at hr
+    split at hr
+    · rename_i hp
+      simp only [Option.some.injEq] at hr; subst hr
+      simp [due, filter_live_of_cancelled (popLive_none_all_cancelled hp)]
+    · rename_i e rest hp
+      have hfl := filter_live_pop hp
+      have hes : e.isStep = false := hq.nosteps e (popLive_mem hp).1
+      split at hr
+      · rename_i hle
+        have hqp : Quiet (popped s e rest) :=
+          ⟨hq.progs, fun y hy => hq.nosteps y ((popLive_mem hp).2 y hy)⟩
+        have hex := exec_quiet e hqp hes
+        have hq' : Quiet (exec (popped s e rest) e) := by
+          rw [hex]
+          split
+          · exact ⟨hqp.progs, hqp.nosteps⟩
+          · exact ⟨hqp.progs, hqp.nosteps⟩
+        have h1 := ih hq' hr
+        rw [h1, hex]
+        simp only [due, hfl, List.takeWhile_cons, hle, decide_true, if_true, List.filterMap_cons, logged]
+        split <;> simp_all [popped]
+      · rename_i hgt
+        simp only [Option.some.injEq] at hr; subst hr
+        simp [due, hfl, hgt]
+
 end Mesa.Devs
